@@ -102,6 +102,13 @@ func (f *Track2) Unpack(data []byte) (int, error) {
 		if err != nil {
 			return 0, err
 		}
+	} else {
+		// an empty value carries no components: forget those of a previous value
+		f.PrimaryAccountNumber, f.Separator, f.ExpirationDate = "", "", nil
+		f.ServiceCode, f.DiscretionaryData = "", ""
+		if f.data != nil {
+			*(f.data) = *f
+		}
 	}
 
 	return bytesRead, nil
